@@ -107,3 +107,5 @@ V('C04', 'rename-skips-exists-check', S, F + '_update_obj_name',
                     raise errors.SchemaError(
                         f'{vn} already exists')
 ''', '', 'C04.R9', 'name_to_id[new_name]:exists-check')
+V('C04', 'lint-old-new-name-swapped', S, F + 'set_obj_field',
+  'self._update_obj_name(obj_id, sclass, old_name, value)', 'self._update_obj_name(obj_id, sclass, value, old_name)', 'C04.R7', 'set_obj_field:_update_obj_name:roles')
